@@ -138,6 +138,16 @@ def obligations(tier):
                       claim='per report: sent => not unsubscribed, not ended, not expired, errors < limit, some filter entry ends with '
                             'the action; alive and action literally in the filter => sent exactly once to NotifyTo; a failed delivery '
                             'counts towards the limit and stops the next delivery at the limit'))
+    for a, name in ((False, 'sync'), (True, 'async')):
+        obs.append(Ob(f'C08.client.error_status.{name}', 'harness.C08', 'client_error_status', bind={'use_async': a}, timeout=t,
+                      functions=['sdc11073.pysoap.soapclient.SoapClient._send_soap_request',
+                                 'sdc11073.pysoap.soapclient_async.SoapClientAsync.async_post_message_to'],
+                      stubs=['real SoapClient / SoapClientAsync and MessageReader; the HTTP connection / aiohttp session is a stub that '
+                             'answers with the chosen status and body; real interpreter semantics, selectors chosen by the solver'],
+                      bounds='7 status codes (200, 202, 301, 400, 404, 500, 503) x 5 bodies (empty, html error page, not utf-8, plain '
+                             'text, soap fault)',
+                      claim='an error status reaches the subscription as HTTPReturnCodeError (the failure both managers count and '
+                            'survive) whatever the body is; 2xx with an empty body is a successful delivery'))
     obs.append(Ob('C08.filter.match', 'harness.C08', 'filter_match', timeout=t, functions=[SMB + '.ActionBasedSubscription.matches'],
                   bind={'maxlen': 2 if quick else 3}, stubs=[S_CTOR],
                   bounds=f'1 or 2 filter entries: symbolic str of 1..{2 if quick else 3} chars without white space; action: symbolic '
